@@ -300,6 +300,13 @@ def apply(pool, op):
         else:
             w.append(arg)
         return None
+    if k == "repickle":
+        # the object is replaced by its pickle / deepcopy round trip
+        import copy as _copy
+        import pickle as _pickle
+        how = op["how"]
+        pool.objs[op["i"]] = _copy.deepcopy(w) if how == "deepcopy" else _pickle.loads(_pickle.dumps(w, how))
+        return None
     if k == "set_cap":
         w.capacity = iarg(op["v"])
         return None
@@ -509,6 +516,7 @@ class OnlineGen:
             choices += ["set_timing", "set_count"]     # Spectrum.sample_count is read-only
         if kind in ("A", "C"):
             choices += ["set_scale"]
+        choices += ["repickle"]
         choices += self.focus.get("extra", [])
         k = rng.choice(choices)
         u = UNIT[FAM]
@@ -581,6 +589,8 @@ class OnlineGen:
             single = len(srcs) == 1 and rng.random() < 0.6
             return {"op": "append_wfm", "i": j, "srcs": srcs, "single": single, "seq": rng.choice(["list", "tuple"]),
                     "ts_given": kind != "S" and rng.random() < 0.03}
+        if k == "repickle":
+            return {"op": "repickle", "i": j, "how": rng.choice([2, 3, 4, 5, -1, "deepcopy"])}
         if k == "set_cap":
             return {"op": "set_cap", "i": j, "v": rand_iarg(rng, st + cnt + rng.choice([0, 1, 3]), allow_none=True)}
         if k == "set_count":
@@ -760,6 +770,8 @@ def opc(op):
         return "PAppendArr %s %s %s" % (vf.natc(op["i"]), arrc(op["arr"]), tsc)
     if k == "append_wfm":
         return "PAppendWfm %s %s %s" % (vf.natc(op["i"]), "[" + "; ".join(vf.natc(j) for j in op["srcs"]) + "]", vf.boolc(bool(op.get("ts_given"))))
+    if k == "repickle":
+        return "PRepickle %s" % vf.natc(op["i"])
     if k == "set_cap":
         return "PSetCap %s %s" % (vf.natc(op["i"]), iargc(op["v"]))
     if k == "set_count":
